@@ -609,12 +609,13 @@ fn get_zone_offset(zone_name: &str, date: (i32, u32, u32), time: (u32, u32, u32,
   if let LocalResult::Single(utc) = Utc.ymd_opt(date.0, date.1, date.2).and_hms_nano_opt(time.0, time.1, time.2, time.3) {
     // try parse the time zone specified as text
     if let Ok(tz) = zone_name.parse::<chrono_tz::Tz>() {
-      // build date and time in parsed time zone
-      let zdt = tz.ymd(date.0, date.1, date.2).and_hms_nano(time.0, time.1, time.2, time.3);
-      // calculate the time offset, the result is a chrono::Duration
-      let offset: chrono::Duration = utc.with_timezone(&tz) - zdt;
-      // return seconds
-      return Some(offset.num_seconds() as i32);
+      // build date and time in parsed time zone, this local time may not exist or may be ambiguous
+      if let LocalResult::Single(zdt) = tz.ymd_opt(date.0, date.1, date.2).and_hms_nano_opt(time.0, time.1, time.2, time.3) {
+        // calculate the time offset, the result is a chrono::Duration
+        let offset: chrono::Duration = utc.with_timezone(&tz) - zdt;
+        // return seconds
+        return Some(offset.num_seconds() as i32);
+      }
     }
   }
   None
